@@ -260,6 +260,8 @@ class Interp:
         if t in self.enums:
             raise KsyError("attribute %r: type %r names an enum - the underlying integer type is not given" % (aid, t))
         if t in self.types:
+            if len(self.path) > 60:
+                raise KsyError("user type %r is nested more than 60 levels deep (self-referential type?)" % (t,))
             sc2 = Scope(scope)
             kids = self.seq(self.types[t].get("seq", []), sub, sc2)
             sub.align()
